@@ -27,7 +27,7 @@ type spec struct {
 	rev     bool   // reverse transfer that must be unaffected
 }
 
-var disruptors = []string{"none", "closeWriteEarly", "closeRead", "closeL", "closeR", "rdlPast", "rdlFuture", "rdlPastThenZero", "wdlPast", "wdlFuture", "rdlFutureNoWriter", "rdlPastNoWriter", "wdlFutureNoReader", "closeWriteNoWriter", "closeReadNoReader", "sdlPast", "sdlFuture", "crSdlPastNoReader", "crSdlFutureNoReader", "crSdlPastZeroThenRead"}
+var disruptors = []string{"none", "closeWriteEarly", "closeRead", "closeL", "closeR", "rdlPast", "rdlFuture", "rdlPastThenZero", "wdlPast", "wdlFuture", "rdlFutureNoWriter", "rdlPastNoWriter", "wdlFutureNoReader", "closeWriteNoWriter", "closeReadNoReader", "sdlPast", "sdlFuture", "crSdlPastNoReader", "crSdlFutureNoReader", "crSdlPastZeroThenRead", "sinkFail0", "sinkFail1"}
 
 func (s spec) String() string {
 	var w []string
@@ -62,9 +62,25 @@ func parseSpec(p string) spec {
 	return s
 }
 
-type sink struct{ b []byte }
+type sink struct {
+	b      []byte
+	failAt int // when >= 0: accept at most this many bytes in total, then fail (short write + error)
+}
 
-func (s *sink) Write(p []byte) (int, error) { s.b = append(s.b, p...); return len(p), nil }
+var errSink = errors.New("destination failed")
+
+func (s *sink) Write(p []byte) (int, error) {
+	if s.failAt >= 0 && len(s.b)+len(p) > s.failAt {
+		k := s.failAt - len(s.b)
+		if k < 0 {
+			k = 0
+		}
+		s.b = append(s.b, p[:k]...)
+		return k, errSink
+	}
+	s.b = append(s.b, p...)
+	return len(p), nil
+}
 
 func isTimeout(err error) bool { return errors.Is(err, os.ErrDeadlineExceeded) }
 
@@ -115,8 +131,20 @@ func scenario(param string) vsched.Scenario {
 			if !noReader {
 				rwg.Go(func() {
 					readerRan = true
+					if sp.writeTo && strings.HasPrefix(sp.dis, "sinkFail") {
+						// the destination of WriteTo fails while a peer Write is in flight; the reader
+						// then closes its read side, which must fail the peer's pending and later writes
+						sk := &sink{failAt: int(sp.dis[len(sp.dis)-1] - '0')}
+						_, err := pr.WriteTo(sk)
+						got = sk.b
+						if err != nil {
+							readErrs = append(readErrs, err)
+						}
+						pr.CloseRead()
+						return
+					}
 					if sp.writeTo {
-						sk := &sink{}
+						sk := &sink{failAt: -1}
 						_, err := pr.WriteTo(sk)
 						for isTimeout(err) {
 							readErrs = append(readErrs, err)
@@ -186,7 +214,7 @@ func scenario(param string) vsched.Scenario {
 			past := time.Unix(1, 0)
 			future := vsched.Now().Add(time.Second)
 			switch sp.dis {
-			case "none":
+			case "none", "sinkFail0", "sinkFail1":
 			case "closeWriteEarly", "closeWriteNoWriter":
 				dwg.Go(func() { pl.CloseWrite() })
 			case "closeRead", "closeReadNoReader":
@@ -274,7 +302,7 @@ func scenario(param string) vsched.Scenario {
 				}
 				counts[wi]++
 			}
-			writeErrOK := strings.HasPrefix(sp.dis, "sdl") || strings.HasPrefix(sp.dis, "crSdl") && sp.dis != "crSdlPastZeroThenRead" || sp.dis == "closeWriteEarly" || sp.dis == "closeRead" || sp.dis == "closeL" || sp.dis == "closeR" || strings.HasPrefix(sp.dis, "wdl") || sp.dis == "closeReadNoReader"
+			writeErrOK := strings.HasPrefix(sp.dis, "sinkFail") || strings.HasPrefix(sp.dis, "sdl") || strings.HasPrefix(sp.dis, "crSdl") && sp.dis != "crSdlPastZeroThenRead" || sp.dis == "closeWriteEarly" || sp.dis == "closeRead" || sp.dis == "closeL" || sp.dis == "closeR" || strings.HasPrefix(sp.dis, "wdl") || sp.dis == "closeReadNoReader"
 			for i, r := range wr {
 				if noWriter {
 					break
@@ -301,9 +329,12 @@ func scenario(param string) vsched.Scenario {
 					return obs, fmt.Sprintf("writer %d: error %v is not a timeout", i, r.err)
 				}
 			}
-			readClosedOK := sp.dis == "closeRead" || sp.dis == "closeR" || sp.dis == "closeL"
+			readClosedOK := sp.dis == "closeRead" || sp.dis == "closeR" || sp.dis == "closeL" || strings.HasPrefix(sp.dis, "sinkFail")
 			timeoutOK := strings.HasPrefix(sp.dis, "rdl")
 			for _, err := range readErrs {
+				if errors.Is(err, errSink) && strings.HasPrefix(sp.dis, "sinkFail") {
+					continue
+				}
 				switch {
 				case isTimeout(err):
 					if !timeoutOK {
@@ -382,6 +413,9 @@ func family(c *harness.Check) []spec {
 					continue
 				}
 				for _, d := range disruptors {
+					if strings.HasPrefix(d, "sinkFail") != (wt && strings.HasPrefix(d, "sinkFail")) {
+						continue // failing destinations exist only for WriteTo readers
+					}
 					if strings.HasSuffix(d, "NoWriter") || strings.HasSuffix(d, "NoReader") {
 						if rb != rbufs[0] || len(ws) > 1 && !c.Thorough() {
 							continue
